@@ -58,7 +58,7 @@ CHECKS = {
     "C18": dict(text="partial (flow kernels and helpers): Jacobian of the real velocity kernels by dual numbers vs the paired gradient kernels for simple shear, Stokes cell and corner flow (3-6 axis pairs, symbolic position and parameters), trace, domain errors; strain_increment; _is_inside / _ivp_func / _ivp_jac; constructor axis validation (exhaustive); get_pathline around a nondeterministic solve_ivp obeying scipy's contract: what is integrated (helper, Jacobian, start point, backward span, terminal event, keywords), timestamps strictly increasing ending at exactly 0 for raw and regular resampling, interpolant identity; the terminal strain/domain event for arbitrary evaluation orders. 4 genuine defects recorded as known findings (pinned by doctests), matched by exact entry and value.",
                 note="exact reals; derivative rules of the dual-number shim and trig contracts are trusted; solve_ivp only by contract (t[0] = t_span[0], monotone nodes, dense interpolant): accuracy of the integrated curve (dx/dt = u, staying in the box) and the 1.25 x slack of the event location are outside the claim",
                 tech="symbolic execution of real source with dual numbers + SMT (z3); nondeterministic solve_ivp stub"),
-    "C19": dict(text="default record and all presets enumerated completely (every preset x every declared attribute, attribute and dict form); real _parse_config_params / parse_config tail / _parse_config_input_common executed with symbolic presence flags for every optional key, symbolic phase fractions, valid and invalid phase names / fabric letters: only ConfigError may be raised and only for documented violations, every omitted key takes its documented default, result invariants.",
+    "C19": dict(text="default record and all presets enumerated completely (every preset x every declared attribute, attribute and dict form); real _parse_config_params / parse_config tail / _parse_config_input_common executed with symbolic presence flags for every optional key, symbolic phase fractions, valid and invalid phase names / fabric letters, plus a finite table of special values (NaN / infinite fractions, wrongly typed fabric): only ConfigError may be raised and only for documented violations, every omitted key takes its documented default, result invariants.",
                 note="file readers (tomllib, open, resolve_path, meshio.read, read_scsv, np.load) replaced by recording stand-ins; the three input modes are decided for every subset of the mode keys (required companions assumed present)",
                 tech="symbolic execution of real source + SMT (z3) with presence-flag dictionaries; finite tables enumerated exhaustively"),
     "C20": dict(text="real to_spherical/to_cartesian round trip and colatitude convention under trig contracts; poles for all six reference-axes strings (2 grains, symbolic hkl); Lambert projection (masked-array path forked); point_density for the five kernels on a 3x3 grid with 2 symbolic data: normalisation, clipping, grid in disk, order and sign invariance.",
